@@ -46,6 +46,8 @@ EXPLANATION = (
     "site (br-aligned, br-sizebits, acc-contract, hrs); 7 compile-fail witnesses (with compiling twins) make rustc itself "
     "reject safe-code use of the unchecked constructors, size-field writers, raw mutable escape and unchecked encoder."
 )
+EXPLANATION_ADD5 = " Round-5 addition: (EXACT) every View::from_*_unchecked call in the View trait's safe default methods receives a buffer of exactly has_required_size(buf) bytes: the first half of split_at[_mut]_unchecked(buf, SIZE), or the whole buffer on the pass edge of a switch on len(buf) ==/!= SIZE (try_from_boxed), or a copy of self.as_slice() (to_boxed) — the premise of SUBVIEW/HRS and of the fixed-size from_boxed_unchecked impls."
+EXPLANATION = EXPLANATION + EXPLANATION_ADD5
 RESIDUAL = [
     "numeric correctness of layout arithmetic that does not end in a get_unchecked on the view's own buffer (e.g. ranges handed to safe slicing, which panic rather than read out of bounds: PANIC rule)",
     "the remaining unsafe primitives outside view methods (get_unchecked in layout code; the *arguments* of from_*_unchecked sub-view creation inside accessors): enumerated in the evidence, not individually discharged",
